@@ -818,6 +818,8 @@ def value_getattr(I, a, name):
                 v = SArr(r.shape, kind=r.kind, buf=r.buf, imap=r.imap, inv=r.inv, attrs={}, tag=r.tag, mask=r.mask)
                 v.cls = t       # instance of a repository ndarray subclass: its methods are looked up in the class
                 return v
+            if getattr(t, 'dotted', None) == 'numpy.ndarray' or getattr(t, 'name', None) == 'numpy.ndarray':
+                return SArr(r.shape, kind=r.kind, buf=r.buf, imap=r.imap, inv=r.inv, attrs={}, tag='ndarray-view')
             return r
         return meth(view)
     if name == 'swapaxes':
@@ -1321,6 +1323,22 @@ def _masked_where(I, args, kw):
     r = SArr(a.shape, lambda q: a.get(q), a.kind, tag='masked_where')
     cc = broadcast_to(c.frozen(), a.shape) if isinstance(c, SArr) else SArr(a.shape, lambda q: c, 'b')
     r.mask = cc if a.mask is None else elementwise(I, sym.Or, cc, a.mask, 'b')
+    return r
+
+
+@_np('ma.getmaskarray')
+def _getmaskarray(I, args, kw):
+    a = _as_arr(I, args[0])
+    if a.mask is None:
+        return SArr(a.shape, lambda q: False, 'b', tag='nomask')
+    return a.mask.frozen()
+
+
+@_np('ma.getdata')
+def _getdata(I, args, kw):
+    a = _as_arr(I, args[0])
+    # the data of a masked array as a plain array (a view in numpy; never written through in the verified code)
+    r = SArr(a.shape, kind=a.kind, buf=a.buf, imap=a.imap, inv=a.inv, attrs={}, tag='getdata')
     return r
 
 
